@@ -399,7 +399,13 @@ impl Property for C14 {
             // every variable of the pool gets a value; the renamed context binds name+suffix
             let vars = ["a", "b", "x", "e", "ä", "f", "g", "foo_1"];
             let mut lines = vec!["new 0 hm".to_string(), "new 1 hm".to_string()];
+            // in every other case the names of the two functions are NOT bound as variables
+            // (a read of `f` must then be an unknown variable, never a call)
+            let skip_fn_vars = cases.len() % 2 == 1;
             for (i, v) in vars.iter().enumerate() {
+                if skip_fn_vars && (*v == "f" || *v == "g") {
+                    continue;
+                }
                 lines.push(format!("setv 0 {} I{}", xarg(v), i + 2));
                 lines.push(format!("setv 1 {} I{}", xarg(&format!("{}_r", v)), i + 2));
             }
